@@ -225,7 +225,8 @@ MonEval(m, o) ==
       \* --- run lengths including the current cycle
       se0Run1    == IF o.ls = SE0 THEN Min(m.se0Run + 1, T5US) ELSE 0
       q2p5Age1   == AgeOf(se0Run1 >= T2P5US, m.q2p5Age)
-      taint1     == o.ls = SE0 /\ (hsNow \/ m.taint)
+      \* (a soft-disconnected device -- non-driving -- starts afresh: the run no longer counts as HS idle)
+      taint1     == o.ls = SE0 /\ o.op # NONDRIVING /\ (hsNow \/ m.taint)
       q5Age1     == AgeOf(se0Run1 >= T5US /\ ~taint1, m.q5Age)
       idleNow    == o.spd # HIGH /\ o.ls = IdleLs(o.spd)
       idleRun1   == IF idleNow THEN Min(m.idleRun + 1, T3MS) ELSE 0
